@@ -233,6 +233,11 @@ class Leak:
                             st = drop_sites(st, sel)
                         if an[0] in (".", "*", "[]") and trackable(an) and c in ("free", "events_freerec"):
                             st = st | frozenset([(e.pos, ("dangling", an))])
+                        # a pointer with static storage duration outlives the call as well: released by any releaser, it must be
+                        # cleared (or reassigned) before the function returns, or the next call uses the freed object
+                        ae = a.strip()
+                        if an[0] == "v" and ae is not None and ae.cls == "DeclRefExpr" and ae.decl and ae.decl.get("kind") not in ("local", "param", "func", "enumconst"):
+                            st = st | frozenset([(e.pos, ("dangling", an))])
                     return st
                 if c == "asprintf" and e.arg(0) is not None:
                     tgt = norm(e.arg(0))
